@@ -31,7 +31,7 @@ func (e *Engine) step(f *frame, stp **State, b *ssa.BasicBlock, ins []guarded, i
 	switch x := instr.(type) {
 	case *ssa.Alloc:
 		elem := x.Type().(*types.Pointer).Elem()
-		if at, ok := elem.Underlying().(*types.Array); ok {
+		if at, ok := elem.Underlying().(*types.Array); ok && !wholeValueArrayAlloc(x) {
 			arr := e.newArr(st, at.Elem(), false, x.Comment+"_arr")
 			f.env[x] = ArrPtrV{Arr: arr, N: at.Len()}
 			break
@@ -537,4 +537,29 @@ func (e *Engine) globalVal(st *State, g *ssa.Global, t types.Type) Val {
 	v := e.symbolic(e.inputState, t, key)
 	e.named[key] = v
 	return v
+}
+
+// wholeValueArrayAlloc: a local of array type (ulid.ULID, part ids, digests) that is only ever read and written as a
+// whole is an opaque value in a plain cell, not an indexable SMT array.
+func wholeValueArrayAlloc(x *ssa.Alloc) bool {
+	refs := x.Referrers()
+	if refs == nil {
+		return false
+	}
+	for _, r := range *refs {
+		switch u := r.(type) {
+		case *ssa.Store:
+			if u.Addr != x {
+				return false // the address itself escapes
+			}
+		case *ssa.UnOp:
+			if u.Op != token.MUL {
+				return false
+			}
+		case *ssa.DebugRef:
+		default:
+			return false
+		}
+	}
+	return true
 }
